@@ -45,6 +45,7 @@ def _run_one(path, func, line, timeout, env):
     return {"func": func, "out": out, "err": err[-2000:], "rc": rc, "wall_s": round(time.time() - t0, 2)}
 
 
+_CEX_ML = re.compile(r"when calling (\w+)\((.*?)\)(?: \(which returns .*\))?\s*$", re.S)
 _CEX = re.compile(r"error: (.*) when calling (\w+)\((.*)\)(?: \(which returns (.*)\))?\s*$", re.S)
 
 
@@ -57,13 +58,13 @@ def classify(raw):
     text = "\n".join(lines)
     if "Confirmed over all paths" in text and "error:" not in text:
         return "confirmed", lines[-1], None
-    m = None
-    for l in lines:
-        if ": error: " in l:
-            m = _CEX.search(l)
-            if m:
-                return "violation", l.split(": error: ", 1)[1], m.group(3)
-            return "violation", l.split(": error: ", 1)[1], None
+    if ": error: " in text:
+        # the message may span several lines (exception texts with embedded newlines)
+        body = text.split(": error: ", 1)[1]
+        m = _CEX_ML.search(body)
+        if m:
+            return "violation", " ".join(body.split())[:600], m.group(2)
+        return "violation", " ".join(body.split())[:600], None
     if "Unable to meet precondition" in text:
         return "inconclusive", "Unable to meet precondition (vacuous or every path aborted)", None
     if "Not confirmed" in text:
